@@ -314,6 +314,7 @@ def run(idx: ProgramIndex, rep: Report, tier: str):
     rep.add("C09-2", "%s:IndexKernel" % IK.module.name, dense.where, not probs, "B B^T + diag(var) (dense) and Root(B) + Diag(var) (operator); rows i1, columns i2" if not probs else "; ".join(sorted(set(probs))), {})
     grid_enumeration(idx, rep)
     evaluation_is_pure(idx, rep)
+    same_points_same_matrix(idx, rep)
 
 
 # ---- C09-5: one enumeration order of the grid points for every producer and consumer ---------------------------------------
@@ -542,3 +543,174 @@ def evaluation_is_pure(idx: ProgramIndex, rep: Report):
                     "evaluation writes caches / loss bookkeeping / one-time initialisation only" if not probs else
                     "; ".join(probs) + ": the approximate kernel changes between the evaluation that filled the prediction caches and the evaluation at the test inputs, so the strategy's result is not the dense conditional of any one kernel matrix", {})
     rep.floor("C09-6", "kernel forward / __call__ implementations", n, 30)
+
+
+# ---- C09-7 ---------------------------------------------------------------------------------------------------------
+def same_points_same_matrix(idx: ProgramIndex, rep: Report):
+    """`if torch.equal(x1, x2)` lets a kernel pick a cheaper representation when it is asked for K(X, X).  The kernel cannot know *why*
+    the two arguments coincide (a cross-covariance K(X*, X) with test inputs equal to the training inputs takes the same branch), so the
+    branch may change the representation but not the matrix: every result of the equal-branch must also be a result of the general
+    branch with x2 := x1.  Decided on inlined return expressions: syntactic equality after the substitution, else equality of
+    non-commutative normal forms (root constructors R -> R R^T, products, sums, transposes; everything else an opaque symbol)."""
+    rep.rule("C09-7", "a branch on torch.equal(x1, x2) changes the representation, not the matrix: its results are results of the general branch at x2 := x1")
+    from ..symbolic import inline, walk_paths
+    from ..domains.linalg import LinEval, TRANSPARENT, TRANSPARENT_FUNCS, SUM_CTORS, PROD_CTORS, ROOT_CTORS, ADDED_DIAG_CTORS
+    import copy as _copy
+    n = 0
+    KNOWN_METHODS = set(TRANSPARENT) | {"transpose", "t", "matmul", "mm", "bmm", "mul", "neg", "add", "sub", "solve", "inv_matmul", "__matmul__", "__add__"}
+    KNOWN_FUNCS = set(TRANSPARENT_FUNCS) | set(SUM_CTORS) | set(PROD_CTORS) | set(ROOT_CTORS) | set(ADDED_DIAG_CTORS)
+
+    def classify(e):
+        if isinstance(e, (ast.BinOp, ast.UnaryOp)):
+            return None
+        if isinstance(e, ast.Attribute) and e.attr in ("mT", "T"):
+            return None
+        if isinstance(e, ast.Call):
+            fn = chain(e.func) or ""
+            short = fn.split(".")[-1]
+            if isinstance(e.func, ast.Attribute) and fn.split(".")[0] != "torch" and e.func.attr in KNOWN_METHODS:
+                return None
+            if short in KNOWN_FUNCS or fn in ("torch.matmul", "torch.mm", "torch.bmm", "torch.add", "torch.sub", "torch.addmm"):
+                return None
+        if isinstance(e, ast.Constant):
+            return None
+        return "<" + " ".join(src(e).split()) + ">"
+
+    class Subst(ast.NodeTransformer):
+        def __init__(self, a, b):
+            self.a, self.b = a, b
+
+        def visit_Name(self, node):
+            return ast.copy_location(ast.Name(id=self.a, ctx=node.ctx), node) if node.id == self.b else node
+
+    for fi in sorted(idx.all_functions(), key=lambda f: (f.module.name, f.qualname)):
+        if not fi.module.name.startswith(idx.package + ".kernels") or fi.cls is None:
+            continue
+        if not any(chain(c.func) == "torch.equal" for c in calls_in(fi.node)):
+            continue
+        params = set(fi.params[1:])
+        groups: Dict[Tuple[str, str], Dict[bool, list]] = {}
+        for path, seq in walk_paths(fi, limit=4000):
+            if path.outcome != RETURN or path.end is None or getattr(path.end, "value", None) is None:
+                continue
+            env_end = None
+            verdicts = {}
+            for st, env in seq:
+                if st is path.end:
+                    env_end = env
+                if getattr(st, "kind", "") == "assume":
+                    t = inline(st.node, env)
+                    neg = False
+                    while isinstance(t, ast.UnaryOp) and isinstance(t.op, ast.Not):
+                        t, neg = t.operand, not neg
+                    cands = [t] + (list(t.values) if isinstance(t, ast.BoolOp) and isinstance(t.op, ast.And) else [])
+                    for c in cands:
+                        if isinstance(c, ast.Call) and chain(c.func) == "torch.equal" and len(c.args) == 2 and all(isinstance(a, ast.Name) and a.id in params for a in c.args):
+                            truth = (st.truth != neg)
+                            if isinstance(t, ast.BoolOp) and not truth:
+                                continue  # `not (size-equal and equal)`: includes differently sized inputs, still the general branch
+                            verdicts[(c.args[0].id, c.args[1].id)] = truth
+                    if isinstance(t, ast.BoolOp) and isinstance(t.op, ast.And) and not (st.truth != neg):
+                        for c in t.values:
+                            if isinstance(c, ast.Call) and chain(c.func) == "torch.equal" and len(c.args) == 2 and all(isinstance(a, ast.Name) and a.id in params for a in c.args):
+                                verdicts[(c.args[0].id, c.args[1].id)] = False
+            if env_end is None or not verdicts:
+                continue
+            rv = inline(path.end.value, env_end)
+            for key, truth in verdicts.items():
+                groups.setdefault(key, {True: [], False: []})[truth].append(rv)
+        for (a, b), g in sorted(groups.items()):
+            if not g[True] or not g[False]:
+                continue
+            n += 1
+            general = [Subst(a, b).visit(_copy.deepcopy(r)) for r in g[False]]
+            gen_dump = {ast.dump(r) for r in general}
+            from ..domains.linalg import Lin
+
+            def scalar(e):
+                """python-scalar expressions as commuting factors: c -> $sqrt(c) $sqrt(c), math.sqrt(c) -> $sqrt(c); numbers as coefficients"""
+                from fractions import Fraction as _F
+                if isinstance(e, ast.Constant) and isinstance(e.value, (int, float)) and not isinstance(e.value, bool):
+                    return Lin({(): _F(e.value)})
+                if isinstance(e, ast.Call):
+                    fn = chain(e.func) or ""
+                    if fn == "math.sqrt" and len(e.args) == 1:
+                        return Lin.sym("$" + " ".join(src(e.args[0]).split()))
+                    if fn in ("float", "int", "len") or fn.startswith("math.") or (isinstance(e.func, ast.Attribute) and e.func.attr in ("size", "numel") and len(e.args) <= 1):
+                        r = Lin.sym("$" + " ".join(src(e).split()))
+                        return r @ r
+                return None
+
+            def commute(v):
+                """scalar factors commute: collect them in front of each term, sorted, with inverse pairs cancelled"""
+                out = {}
+                for term_, c_ in v.terms.items():
+                    exps, rest = {}, []
+                    for f_ in term_:
+                        if f_[0].startswith("$"):
+                            exps[f_[0]] = exps.get(f_[0], 0) + (-1 if f_[2] else 1)
+                        else:
+                            rest.append(f_)
+                    sc = []
+                    for k_ in sorted(exps):
+                        sc += [(k_, False, exps[k_] < 0)] * abs(exps[k_])
+                    key = tuple(sc) + tuple(rest)
+                    out[key] = out.get(key, 0) + c_
+                return Lin(out)
+
+            class Robust(LinEval):
+                """sub-expressions outside the algebra become opaque symbols named by their text"""
+                def ev(self, e):
+                    v = None
+                    if isinstance(e, ast.BinOp) and isinstance(e.op, (ast.Div, ast.Mult)):
+                        sides = [(e.left, e.right)] + ([(e.right, e.left)] if isinstance(e.op, ast.Mult) else [])
+                        for mat, sc in sides:
+                            sv = scalar(sc)
+                            if sv is not None and scalar(mat) is None:
+                                if isinstance(e.op, ast.Div):
+                                    sv = sv.inverse()
+                                mv = self.ev(mat)
+                                v = None if sv is None else commute(sv @ mv)
+                                break
+                    if v is None:
+                        v = LinEval.ev(self, e)
+                    return commute(v) if v is not None else Lin.sym("<" + " ".join(src(e).split()) + ">")
+
+            le = Robust(classify, set())
+
+            def wrapped(e):
+                """(signature of trailing element-selecting wrappers, normal form of the wrapped matrix) or None when the matrix itself
+                is outside the algebra"""
+                sig = []
+                while isinstance(e, ast.Call) and isinstance(e.func, ast.Attribute) and e.func.attr in ("diagonal", "diag") and chain(e.func.value) not in ("torch",):
+                    sig.append(" ".join(src(ast.Call(func=ast.Name(id=e.func.attr, ctx=ast.Load()), args=e.args, keywords=e.keywords)).split()))
+                    e = e.func.value
+                v = le.ev(e)
+                opaque = len(v.terms) == 1 and list(v.terms)[0] == (("<" + " ".join(src(e).split()) + ">", False, False),)
+                return None if opaque else (tuple(sig), v)
+
+            gen_nf = [wrapped(r) for r in general]
+            probs, undec = [], 0
+            for r in g[True]:
+                r2 = Subst(a, b).visit(_copy.deepcopy(r))
+                if ast.dump(r2) in gen_dump:
+                    continue
+                w = wrapped(r2)
+                cands = [x for x in gen_nf if x is not None and w is not None and x[0] == w[0]]
+                if w is None or not cands:
+                    undec += 1
+                    continue
+                nf = w[1]
+                if any(x[1] == nf for x in cands):
+                    continue
+                gen_nf_show = [x[1] for x in cands]
+                probs.append("with %s equal to %s the function returns `%s` = %s, which the general branch at %s := %s (%s) never returns" % (
+                    a, b, " ".join(src(r).split())[:70], nf.show()[:120], b, a, " | ".join(sorted({x.show()[:80] for x in gen_nf_show}))))
+            inst = "%s:%s[torch.equal(%s, %s)]" % (fi.module.name, fi.qualname, "_", "_")
+            if probs:
+                rep.add("C09-7", inst, fi.where, False, "; ".join(sorted(set(probs)))[:900] + ": a cross-covariance whose two input sets happen to coincide (test inputs equal to the training inputs) gets the auto-covariance form", {})
+            elif undec:
+                rep.observe("C09-7", inst, fi.where, "%d equal-branch result(s) outside the matrix normal form: not decided" % undec)
+            else:
+                rep.add("C09-7", inst, fi.where, True, "the equal-branch results coincide with the general branch at %s := %s" % (b, a), {})
+    rep.floor("C09-7", "functions branching on torch.equal of two inputs", n, 3)
